@@ -2626,6 +2626,11 @@ class TextQueryBackend(Backend):
                     for alias in aliases
                     for alias_rule_reference, field in alias.mapping.items()
                     if alias_rule_reference == rule_reference
+                    or (  # the same rule referred to by name in one place and by id in the other
+                        getattr(alias_rule_reference, "rule", None) is not None
+                        and getattr(alias_rule_reference, "rule", None)
+                        is getattr(rule_reference, "rule", None)
+                    )
                 )
             )
 
